@@ -205,7 +205,7 @@ impl Prop for C01 {
     const PART: &'static str = "random-worlds";
     const RULE: &'static str = "proptest choice sequences -> planner cases over 4 planners x 6 kinds: generated bounded spaces, 0-4 obstacles (balls, boxes, walls with doors, arcs, cones; 30% thicker than the resolution but thinner than the step), 30% starts marginally inside an obstacle (depth < 0.1 L), 30% goal regions blocked/overlapped by an obstacle, step log-uniform over [1e-3,10] x extent, goal bias {0,(0,1),1}, iteration budgets, seeds; 25% of the cases are call histories with a second problem whose setup installs a stricter checker (the base world plus one obstacle). Non-trivial = Ok(path) with >= 3 states in a run where >= 1 validity query was rejected, or an invalid-start case that reached solve.";
     fn random_cases(tier: Tier) -> usize {
-        tier.pick(6_000, 150_000)
+        tier.pick(15_000, 150_000)
     }
     fn gen(ch: &mut Ch, _tier: Tier) -> PlanCase {
         let prof = Profile {
@@ -374,7 +374,7 @@ impl Prop for C02 {
     const PART: &'static str = "histories";
     const RULE: &'static str = "proptest choice sequences -> planner cases with call histories of 2-9 ops over {setup(P1), setup(P2), set_problem_definition(Pi) (PRM), construct_roadmap (PRM), solve(budget)} with two problems differing in start and goal; reference model tracks the current problem. Non-trivial = an Ok(path) after >= 2 solves / >= 2 setups / a problem replacement, or any RRT-Connect path (classified direct-hit / junction-start-grew / junction-goal-grew from the tree snapshots).";
     fn random_cases(tier: Tier) -> usize {
-        tier.pick(6_000, 120_000)
+        tier.pick(12_000, 120_000)
     }
     fn gen(ch: &mut Ch, _tier: Tier) -> PlanCase {
         let prof = Profile {
@@ -518,7 +518,7 @@ impl Prop for C03 {
     const PART: &'static str = "path-edges";
     const RULE: &'static str = "planner cases as in C01 with valid starts, 60% walls/obstacles thicker than the resolution L but thinner than the step, RRT* radius 1-4 x step, iteration budgets <= 1000. Oracle A: on every path segment the accepted logged validity queries lying on the segment (metric on-segment test) leave no gap > L; oracle B: dense re-check (spacing L/64) of the pure world finds no invalid stretch >= L. Non-trivial = a path with an edge longer than L in a run where >= 1 validity query was rejected.";
     fn random_cases(tier: Tier) -> usize {
-        tier.pick(5_000, 100_000)
+        tier.pick(12_000, 100_000)
     }
     fn gen(ch: &mut Ch, _tier: Tier) -> PlanCase {
         let prof = Profile {
@@ -623,7 +623,7 @@ impl Prop for C04 {
     const PART: &'static str = "bounds";
     const RULE: &'static str = "planner cases over bounded spaces of every kind: boxes, SO2 intervals of every span (incl. > pi and seam-touching), SO3 cones of radius (0.3, pi), compounds; start in bounds; goal samples checked against the precondition (case discarded otherwise); 40% of cases put start and goal on opposite ends of the SO2 interval. Reference membership independent of satisfies_bounds, tolerance 1e-9 (SO3 1e-6). Non-trivial = path with >= 3 states in a space whose bounds are strictly smaller than the manifold.";
     fn random_cases(tier: Tier) -> usize {
-        tier.pick(6_000, 120_000)
+        tier.pick(12_000, 120_000)
     }
     fn gen(ch: &mut Ch, _tier: Tier) -> PlanCase {
         let prof = Profile {
@@ -689,7 +689,7 @@ impl Prop for C05 {
     const PART: &'static str = "spacing";
     const RULE: &'static str = "planner cases over all kinds with step / radius log-uniform over [1e-3,10] x extent, compound weights 1e-3..1e3, SO2 start/goal across the interval ends, SO3 on both interpolation branches. Every consecutive pair of path states must be within the planner's extension limit by the space's own metric and by the reference metric. Non-trivial = path containing a steered edge (length within 1% of the step).";
     fn random_cases(tier: Tier) -> usize {
-        tier.pick(6_000, 120_000)
+        tier.pick(12_000, 120_000)
     }
     fn gen(ch: &mut Ch, _tier: Tier) -> PlanCase {
         let prof = Profile {
